@@ -80,14 +80,14 @@ class ParserEngine(ParserCore, CanParse):
         config = config.override(start=start, **settings)
         assert isinstance(config, ParserConfig)
         self._active_config = config
-
-        self._initialize_caches()
-        self.heart = config.heart
-        self.lastbeat_time = 0.0
-        self.lastbeat_pos: int = 0
-        self._furthest_exception = None
-        self.update_tracer()
         try:
+            self._initialize_caches()
+            self.heart = config.heart
+            self.lastbeat_time = 0.0
+            self.lastbeat_pos: int = 0
+            self._furthest_exception = None
+            self.update_tracer()
+
             if isinstance(text, Text):
                 input = text
             else:
@@ -111,8 +111,9 @@ class ParserEngine(ParserCore, CanParse):
                 raise self._furthest_exception from e
             raise
         finally:
-            self._initialize_caches()
+            # NOTE: the parser's own configuration first: whatever the per-call one made fail must not fail again here
             self._active_config = self._config
+            self._initialize_caches()
             self.update_tracer()
             if self.config.semantics and hasattr(self.config.semantics, 'set_context'):
                 self.config.semantics.set_context(None)  # ty: ignore[call-non-callable]
